@@ -23,6 +23,9 @@ class C13(Prop):
         c["calls"] = rng.randint(1, 4)
         if rng.random() < 0.3:
             c["jd_type"] = "list"
+        if rng.random() < 0.4:
+            c["node_order"] = [v for v, _ in c["jd"]]
+            rng.shuffle(c["node_order"])          # a vertex's label is not its position in G.nodes()
         return c
 
     def impl(self, case):
